@@ -14,6 +14,11 @@
 //   env_histories  hardware_concurrency answers (num_threads = 0), the defaulted progress_fn argument,
 //                  histories of two or three calls inside one execution, calls made inside a catch
 //                  handler and from a destructor during stack unwinding
+//   big_blocks     (round 5) MAGNITUDE: block sizes on a ladder around the powers of two (0xFF .. 0x10001), 2-3 blocks,
+//                  2-3 workers, hits at the first / last value of a block and at offsets 2^k-1, 2^k, 2^k+1 inside a
+//                  block; parallel_range on 255..257 and 65535..65537 values.  Scheduling points are only the atomic
+//                  operations, so a block of 65537 values costs callbacks, not schedules.  The callback log is a
+//                  per-value counter array with an incrementally maintained multiset digest.
 #include <fcntl.h>
 #include <signal.h>
 #include <stdint.h>
@@ -86,11 +91,30 @@ struct Call {
   size_t threads = 1;  // 0 = default (hardware_concurrency shim)
   uint32_t truth = 0;  // bit i: callback returns true for start+i
   int progress = P_NULL;
+  bool big = false;            // large range: the true-set is `hits` (sorted offsets from start), `truth` is unused
+  std::vector<uint64_t> hits;
   uint64_t n() const { return len > 0 ? (uint64_t)len : 0; }
   uint64_t end() const { return start + (uint64_t)len; }
+  // does the callback return true for start+off?  (off < n())
+  bool is_true(uint64_t off) const {
+    if (!big) return off < 32 && ((truth >> off) & 1);
+    return std::binary_search(hits.begin(), hits.end(), off);
+  }
+  bool any_true() const {
+    if (big) return !hits.empty();
+    uint64_t k = n();
+    return (k >= 32 ? truth : (truth & (((uint32_t)1 << k) - 1))) != 0;
+  }
   std::string str() const {
     std::string s = vf::fmt("%s<%s>(range=[%s,%s)", fn_name[fn], ty_name[ty], show(ty, start).c_str(), show(ty, end()).c_str());
     if (fn != F_RANGE) s += ", block=" + show(ty, block);
+    if (big) {
+      s += vf::fmt(" (0x%llx values%s), threads=%zu, true_set_offsets={", (unsigned long long)n(), fn != F_RANGE && block ? vf::fmt(" = %llu blocks of 0x%llx", (unsigned long long)(n() / block), (unsigned long long)block).c_str() : "", threads);
+      for (size_t i = 0; i < hits.size() && i < 12; i++) s += vf::fmt("%s0x%llx", i ? "," : "", (unsigned long long)hits[i]);
+      if (hits.size() > 12) s += vf::fmt(",... %zu offsets", hits.size());
+      s += vf::fmt("}, progress_fn=%s)", progress == P_NULL ? "nullptr" : progress == P_COUNTING ? "counting" : "defaulted-argument");
+      return s;
+    }
     s += vf::fmt(", threads=%zu, true_set_mask=0x%x, progress_fn=%s)", threads, truth, progress == P_NULL ? "nullptr" : progress == P_COUNTING ? "counting" : "defaulted-argument");
     return s;
   }
@@ -122,9 +146,20 @@ struct Config {
 
 struct Obs { uint64_t value; size_t thread_num; };
 
+// The callback log.  Round 5: a per-value counter array (10^4..10^5 invocations per execution must be cheap) plus digests
+// that are maintained incrementally: `multiset_digest` is a commutative sum over all invocations (value, thread_num, call
+// index) - exactly the quantity the visited-state key always contained, so the key stays sound (the oracle reads the log as
+// a multiset) - and `order_digest` is order-sensitive (used only to count distinct observable outcomes).  The invocation
+// list itself is kept for small ranges only (descriptions, outcome strings).
 struct CallResult {
   bool ran = false;
-  std::vector<Obs> log;
+  std::vector<Obs> log;           // small ranges only
+  std::vector<uint8_t> count;     // per offset, saturating at 255
+  uint64_t invocations = 0;
+  uint64_t multiset_digest = 0, order_digest = 0;
+  bool outside = false, twice = false;
+  uint64_t outside_value = 0, twice_value = 0;
+  size_t max_thread_num = 0;
   uint64_t ret = 0;              // ext
   std::vector<uint64_t> retset;  // ext
   bool threw = false, threw_logic = false;
@@ -134,14 +169,34 @@ struct CallResult {
 
 std::string g_outcome;  // observable outcome of the last execution (order of callback invocations + result)
 
+inline uint64_t obs_digest(uint64_t value, size_t thread_num, size_t k) {
+  uint64_t x = (value * 0x9e3779b97f4a7c15ull) ^ ((thread_num + 1) * 0xc2b2ae3d27d4eb4full) ^ ((k + 1) * 0x165667b19e3779f9ull);
+  x ^= x >> 32;
+  return x * 0xff51afd7ed558ccdull;
+}
+
 template <class IntT>
-void do_call(const Call& c, CallResult& res) {
+void do_call(const Call& c, CallResult& res, size_t k) {
   IntT start = (IntT)c.start, end = (IntT)c.end();
   uint64_t n = c.n();
-  std::function<bool(IntT, size_t)> cb = [&res, &c, n](IntT v, size_t tn) {
-    res.log.push_back({(uint64_t)v, tn});
-    uint64_t off = (uint64_t)v - c.start;  // exact membership test: the range does not wrap in Z mod 2^64
-    return off < n && ((c.truth >> off) & 1);
+  bool keep_list = !c.big;
+  res.count.assign(n, 0);
+  std::function<bool(IntT, size_t)> cb = [&res, &c, n, k, keep_list](IntT v, size_t tn) {
+    uint64_t value = (uint64_t)v;
+    if (keep_list) res.log.push_back({value, tn});
+    uint64_t d = obs_digest(value, tn, k);
+    res.multiset_digest += d;  // commutative: the oracle reads each log as a multiset
+    res.order_digest = (res.order_digest ^ d) * 1099511628211ull;
+    res.invocations++;
+    if (tn > res.max_thread_num) res.max_thread_num = tn;
+    uint64_t off = value - c.start;  // exact membership test: the range does not wrap in Z mod 2^64
+    if (off >= n) {
+      if (!res.outside) { res.outside = true; res.outside_value = value; }
+      return false;
+    }
+    if (res.count[off] == 1 && !res.twice) { res.twice = true; res.twice_value = value; }
+    if (res.count[off] < 255) res.count[off]++;
+    return c.is_true(off);
   };
   std::function<void(IntT, IntT, IntT, uint64_t)> prog = nullptr;
   if (c.progress == P_COUNTING) prog = [&res](IntT, IntT, IntT, uint64_t) { res.progress_calls++; };
@@ -168,16 +223,16 @@ void do_call(const Call& c, CallResult& res) {
   }
 }
 
-void dispatch_call(const Call& c, CallResult& res) {
+void dispatch_call(const Call& c, CallResult& res, size_t k) {
   switch (c.ty) {
-    case U8: return do_call<uint8_t>(c, res);
-    case U16: return do_call<uint16_t>(c, res);
-    case U32: return do_call<uint32_t>(c, res);
-    case U64: return do_call<uint64_t>(c, res);
-    case I8: return do_call<int8_t>(c, res);
-    case I16: return do_call<int16_t>(c, res);
-    case I32: return do_call<int32_t>(c, res);
-    case I64: return do_call<int64_t>(c, res);
+    case U8: return do_call<uint8_t>(c, res, k);
+    case U16: return do_call<uint16_t>(c, res, k);
+    case U32: return do_call<uint32_t>(c, res, k);
+    case U64: return do_call<uint64_t>(c, res, k);
+    case I8: return do_call<int8_t>(c, res, k);
+    case I16: return do_call<int16_t>(c, res, k);
+    case I32: return do_call<int32_t>(c, res, k);
+    case I64: return do_call<int64_t>(c, res, k);
   }
 }
 
@@ -201,43 +256,39 @@ std::string oracle(const Call& c, const CallResult& res, unsigned hc, std::strin
     *cls = "invalid-call-rejected";
     return "";
   }
-  std::vector<int> count(n, 0);
-  for (auto& o : res.log) {
-    uint64_t off = o.value - c.start;
-    if (off >= n) return vf::fmt("callback invoked for %s, outside [%s,%s)", show(ty, o.value).c_str(), show(ty, c.start).c_str(), show(ty, c.end()).c_str());
-    if (o.thread_num >= nthreads) return vf::fmt("callback got thread_num %zu with %zu threads", o.thread_num, nthreads);
-    if (++count[off] > 1) return vf::fmt("callback invoked twice for %s", show(ty, o.value).c_str());
-  }
+  const std::vector<uint8_t>& count = res.count;
+  if (res.outside) return vf::fmt("callback invoked for %s, outside [%s,%s)", show(ty, res.outside_value).c_str(), show(ty, c.start).c_str(), show(ty, c.end()).c_str());
+  if (res.invocations && res.max_thread_num >= nthreads) return vf::fmt("callback got thread_num %zu with %zu threads", res.max_thread_num, nthreads);
+  if (res.twice) return vf::fmt("callback invoked twice for %s", show(ty, res.twice_value).c_str());
   if (!valid) {
     *cls = "invalid-call-not-rejected";
     return "";
   }
-  uint32_t truth = n >= 32 ? c.truth : (c.truth & (((uint32_t)1 << n) - 1));
   if (c.fn == F_MULTI) {
     for (uint64_t i = 0; i < n; i++)
-      if (count[i] != 1) return vf::fmt("value %s invoked %d times (all values must be visited exactly once by _multi)", show(ty, c.start + i).c_str(), count[i]);
-    std::vector<int> in(n, 0);
+      if (count[i] != 1) return vf::fmt("value %s invoked %d times (all values must be visited exactly once by _multi)", show(ty, c.start + i).c_str(), (int)count[i]);
+    std::vector<uint8_t> in(n, 0);
     for (uint64_t v : res.retset) {
       uint64_t off = v - c.start;
       if (off >= n) return "_multi result contains " + show(ty, v) + ", a value outside the range";
-      in[off]++;
+      in[off] = 1;
     }
     for (uint64_t i = 0; i < n; i++) {
-      bool want = (truth >> i) & 1;
+      bool want = c.is_true(i);
       if ((in[i] != 0) != want) return vf::fmt("_multi result %s %s", in[i] ? "contains a value whose callback returned false:" : "misses a true value:", show(ty, c.start + i).c_str());
     }
     *cls = "multi-ok";
     return "";
   }
-  if (truth == 0) {
+  if (!c.any_true()) {
     for (uint64_t i = 0; i < n; i++)
-      if (count[i] != 1) return vf::fmt("callback never true, but value %s was invoked %d times", show(ty, c.start + i).c_str(), count[i]);
+      if (count[i] != 1) return vf::fmt("callback never true, but value %s was invoked %d times", show(ty, c.start + i).c_str(), (int)count[i]);
     if (res.ret != c.end()) return vf::fmt("callback never true, but the call returned %s instead of end_value %s", show(ty, res.ret).c_str(), show(ty, c.end()).c_str());
     *cls = n ? "no-hit-all-visited" : "empty-range";
     return "";
   }
   uint64_t off = res.ret - c.start;
-  if (off >= n || !((truth >> off) & 1))
+  if (off >= n || !c.is_true(off))
     return vf::fmt("some callback returned true, but the call returned %s, for which the callback did not return true", show(ty, res.ret).c_str());
   if (count[off] != 1) return vf::fmt("returned value %s was never passed to the callback", show(ty, res.ret).c_str());
   *cls = "hit-returned";
@@ -264,6 +315,13 @@ std::string run_cfg(const Config& c, const std::vector<int>& prefix) {
   std::vector<CallResult> res(c.calls.size());
   S.spurious_budget = c.spurious;
   S.hardware_concurrency = c.hc;
+  {
+    // livelock horizon: 4000 scheduling steps are ample for the small configurations; a long parallel_range makes
+    // three or four steps per value
+    uint64_t claims = 0;
+    for (auto& cl : c.calls) claims += cl.fn == F_RANGE ? cl.n() : (cl.block ? cl.n() / cl.block : 0);
+    S.horizon = (size_t)(4000 + 16 * claims);
+  }
   S.begin(prefix);
   // The caller's progress loop is `while (load() < end) { progress_fn(); usleep(); }`: nothing but
   // the value just loaded survives an iteration, so its observation history may be forgotten at
@@ -272,19 +330,16 @@ std::string run_cfg(const Config& c, const std::vector<int>& prefix) {
   S.reset_obs_on_yield = !c.keep_poll_history;
   size_t calls_done = 0;
   S.extra_state = [&]() {
+    // multiset of all (value, thread_num, call) invocations so far (commutative sum, maintained by the callback) plus
+    // the number of completed calls: everything the oracle will read from the logs
     uint64_t h = calls_done * 0x2545f4914f6cdd1dull;
-    for (size_t k = 0; k < res.size(); k++)
-      for (auto& o : res[k].log) {
-        uint64_t x = (o.value * 0x9e3779b97f4a7c15ull) ^ ((o.thread_num + 1) * 0xc2b2ae3d27d4eb4full) ^ ((k + 1) * 0x165667b19e3779f9ull);
-        x ^= x >> 32;
-        h += x * 0xff51afd7ed558ccdull;  // commutative: the oracle reads each log as a multiset
-      }
+    for (size_t k = 0; k < res.size(); k++) h += res[k].multiset_digest;
     return h;
   };
   std::string early;  // failure decided when a call returns (thread lifetime)
   auto body = [&]() {
     for (size_t k = 0; k < c.calls.size(); k++) {
-      dispatch_call(c.calls[k], res[k]);
+      dispatch_call(c.calls[k], res[k], k);
       calls_done = k + 1;
       if (S.was_aborted()) return;
       bool workers_done = true;
@@ -322,6 +377,7 @@ std::string run_cfg(const Config& c, const std::vector<int>& prefix) {
   g_class.clear();
   for (size_t k = 0; k < c.calls.size(); k++) {
     const Call& cl = c.calls[k];
+    if (cl.big) g_outcome += vf::fmt("%llu invocations, order digest %016llx ", (unsigned long long)res[k].invocations, (unsigned long long)res[k].order_digest);
     for (auto& o : res[k].log) g_outcome += show(cl.ty, o.value) + vf::fmt("@%zu ", o.thread_num);
     if (res[k].threw) g_outcome += "-> threw; ";
     else if (cl.fn == F_MULTI) g_outcome += vf::fmt("-> set of %zu; ", res[k].retset.size());
@@ -706,6 +762,177 @@ std::vector<Config> configs_env(bool thorough) {
   return out;
 }
 
+// ---- round 5: magnitude ---------------------------------------------------------------------------------------
+Call mkbig(Fn fn, Ty ty, uint64_t start, uint64_t n, uint64_t block, size_t threads, std::vector<uint64_t> hits, int progress = P_NULL) {
+  Call c;
+  c.fn = fn; c.ty = ty; c.start = start; c.len = (int64_t)n; c.block = block; c.threads = threads; c.progress = progress;
+  c.big = true;
+  std::sort(hits.begin(), hits.end());
+  hits.erase(std::unique(hits.begin(), hits.end()), hits.end());
+  while (!hits.empty() && hits.back() >= n) hits.pop_back();
+  c.hits = hits;
+  return c;
+}
+
+// Thresholds inside the per-block loop (a poll of the shared cursor every 2^k values, a progress report every 2^k values,
+// a counter narrower than IntT) are invisible on ranges of 0..4 values.  Scheduling points are only the atomic operations,
+// so a large block costs callbacks, not schedules: the interleaving structure of K blocks of B values is that of K
+// single-value blocks.  Block sizes from a ladder around the powers of two, 2..3 blocks, 2..3 (4) workers, true-sets
+// that put the single hit at the first / last value of a block and at offsets 2^k-1, 2^k, 2^k+1 inside the first and
+// the final block; for _multi one true-set holding all of those offsets in every block at once.
+std::vector<Config> configs_big(bool thorough) {
+  std::vector<Config> out;
+  const uint64_t START = 0x47F92AC2ull;  // not a multiple of any block size (Tools.hh documents that as valid)
+  std::vector<uint64_t> ladder = {0xFF, 0x100, 0x101, 0xFFF, 0x1000, 0x1001, 0x2000, 0x2001, 0x10001};
+  if (thorough) for (uint64_t b : {0x1FFFull, 0x4001ull, 0xFFFFull, 0x10000ull, 0x20001ull}) ladder.push_back(b);
+  auto pow2_offsets = [](uint64_t B, bool all) {
+    // offsets o in [1, B-2] of the form 2^k-1, 2^k, 2^k+1; all: every k >= 1, else k in {8, 12, 16}
+    std::vector<uint64_t> v;
+    for (int k = 1; k < 40; k++) {
+      if (!all && k != 8 && k != 12 && k != 16) continue;
+      uint64_t p = (uint64_t)1 << k;
+      for (uint64_t o : {p - 1, p, p + 1})
+        if (o >= 1 && o + 1 < B) v.push_back(o);
+    }
+    std::sort(v.begin(), v.end());
+    v.erase(std::unique(v.begin(), v.end()), v.end());
+    return v;
+  };
+  for (uint64_t B : ladder) {
+    bool huge = B > 0x4001;
+    for (uint64_t K = 2; K <= 3; K++) {
+      if (huge && K == 3 && !thorough) continue;
+      for (size_t T = 2; T <= 3; T++) {
+        uint64_t n = B * K;
+        int bound = -1;
+        // Cost = schedules x callbacks per execution.  2 workers: a few hundred (2 blocks) to ~1300 (3 blocks) schedules, unbounded
+        // everywhere.  3 workers: ~10^4 schedules for 2 blocks, ~10^5 for 3: quick keeps two ladder points (one above 2^8, one above
+        // 2^12) unbounded for 2 blocks, everything else with 3 workers runs under a preemption bound and with fewer true-sets.
+        bool reduced = false;
+        if (T == 3) {
+          bool ladder3 = B == 0x101 || B == 0x1001 || B == 0x2001;                  // quick
+          if (thorough) ladder3 = !huge || (B == 0x10001 && K == 2);
+          if (!ladder3) continue;
+          if (K == 3) {
+            if (thorough && !(B == 0x101 || B == 0x1001 || B == 0x2001 || B == 0x4001)) continue;
+            bound = thorough ? 3 : 2;
+            reduced = true;
+          } else if (B == 0x101 || B == 0x1001 || (thorough && !huge)) {
+            bound = -1;                                                              // all interleavings, all true-sets
+          } else {
+            bound = 2;
+            reduced = true;
+          }
+        }
+        uint64_t P = B > 0x1001 ? 0x1000 : B > 0x81 ? 0x80 : B / 2;  // a power of two strictly inside the block
+        // parallel_range_blocks: single hits
+        std::vector<std::vector<uint64_t>> sets;
+        sets.push_back({});
+        if (reduced) {
+          sets.push_back({P});
+          sets.push_back({n - 1});
+        } else {
+          for (uint64_t j = 0; j < K; j++) {
+            if (huge && j != 0 && j != K - 1) continue;
+            sets.push_back({j * B});              // first value of block j
+            sets.push_back({j * B + B - 1});      // last value of block j
+          }
+          std::vector<uint64_t> offs = pow2_offsets(B, false);
+          for (uint64_t o : offs) {
+            bool top = o == offs.back();
+            if (T == 3 && !thorough && !top) continue;            // 3 workers (quick): the block ends and the highest such offset
+            sets.push_back({o});                                   // inside the first block
+            if ((!huge && T == 2) || top) sets.push_back({(K - 1) * B + o});  // inside the final block
+          }
+          if (offs.empty()) { sets.push_back({P}); sets.push_back({(K - 1) * B + P}); }
+          sets.push_back({B - 1, (K - 1) * B});  // two true values in different blocks: either may be returned
+        }
+        for (auto& h : sets) out.push_back(one(mkbig(F_BLOCKS, U64, START, n, B, T, h), bound));
+        // parallel_range_blocks_multi: control flow does not depend on the true-set; the result must be exactly the true set
+        {
+          std::vector<uint64_t> all;
+          for (uint64_t j = 0; j < K; j++) {
+            all.push_back(j * B);
+            all.push_back(j * B + B - 1);
+            for (uint64_t o : pow2_offsets(B, true)) all.push_back(j * B + o);
+          }
+          if (!reduced) out.push_back(one(mkbig(F_MULTI, U64, START, n, B, T, {}), bound));
+          out.push_back(one(mkbig(F_MULTI, U64, START, n, B, T, all), bound));
+          if (!huge && !reduced) out.push_back(one(mkbig(F_MULTI, U64, START, n, B, T, {n - 1}), bound));
+        }
+        // counting progress_fn (the caller polls the cursor while the workers are inside their blocks)
+        if (T == 2 && K == 2 && (B == 0x101 || B == 0x1001 || B == 0x2001 || (thorough && B == 0x10001))) {
+          for (int f : {F_BLOCKS, F_MULTI})
+            for (auto& h : std::vector<std::vector<uint64_t>>{{}, {P}, {B + P}}) {
+              if (f == F_MULTI && h.size() && h[0] >= B) continue;
+              out.push_back(one(mkbig((Fn)f, U64, START, n, B, T, h, P_COUNTING)));
+            }
+        }
+      }
+    }
+    // more workers than blocks
+    if (B == 0x101 || B == 0x1001) {
+      out.push_back(one(mkbig(F_BLOCKS, U64, START, 2 * B, B, 4, {}), thorough ? 3 : 2));
+      out.push_back(one(mkbig(F_BLOCKS, U64, START, 2 * B, B, 4, {B + 0x80}), thorough ? 3 : 2));
+      out.push_back(one(mkbig(F_MULTI, U64, START, 2 * B, B, 4, {0x7F, B + 0x80}), thorough ? 3 : 2));
+    }
+    // one block (the only block is the final block), several workers
+    if (B == 0x1001 || B == 0x2001) {
+      for (size_t T = 2; T <= 3; T++) {
+        out.push_back(one(mkbig(F_BLOCKS, U64, START, B, B, T, {})));
+        out.push_back(one(mkbig(F_BLOCKS, U64, START, B, B, T, {0x1000})));
+        out.push_back(one(mkbig(F_MULTI, U64, START, B, B, T, {0xFFF, 0x1000, B - 1})));
+      }
+    }
+  }
+  // narrower and signed IntT: big blocks ending at the type maximum, starting at the type minimum, crossing zero
+  struct TB { Ty ty; uint64_t B; };
+  for (TB tb : {TB{U16, 0x1001}, TB{I16, 0x1001}, TB{U16, 0x2001}, TB{U32, 0x1001}, TB{I32, 0x1001}, TB{I64, 0x1001}, TB{U8, 0x7F}, TB{I8, 0x7F}, TB{U8, 0x40}, TB{I8, 0x40}}) {
+    uint64_t B = tb.B, n = 2 * B;
+    std::vector<uint64_t> starts = {ty_max(tb.ty) - n, ty_min(tb.ty)};
+    if (ty_signed(tb.ty)) {
+      // across zero inside the second block / ending at zero, where the type has room for it; else across zero in the first block
+      for (int64_t cand : {-(int64_t)B - 5, -(int64_t)n, -(int64_t)(B / 2)})
+        if (cand >= (int64_t)ty_min(tb.ty) && cand + (int64_t)n <= (int64_t)ty_max(tb.ty) && std::find(starts.begin(), starts.end(), (uint64_t)cand) == starts.end()) starts.push_back((uint64_t)cand);
+    }
+    for (uint64_t st : starts)
+      for (size_t T = 2; T <= 2; T++) {
+        uint64_t inner = B > 0x1000 ? 0x1000 : B / 2;
+        out.push_back(one(mkbig(F_BLOCKS, tb.ty, st, n, B, T, {})));
+        out.push_back(one(mkbig(F_BLOCKS, tb.ty, st, n, B, T, {inner})));
+        out.push_back(one(mkbig(F_BLOCKS, tb.ty, st, n, B, T, {n - 1})));
+        out.push_back(one(mkbig(F_MULTI, tb.ty, st, n, B, T, {0, inner, B - 1, B, B + inner, n - 1})));
+      }
+  }
+  // parallel_range itself: every value is a claim (a weak-CAS loop), so the schedule count explodes with the range and the
+  // larger ranges are explored under a preemption bound
+  for (uint64_t n : {255ull, 256ull, 257ull, 65535ull, 65536ull, 65537ull}) {
+    bool wide = n > 1000;
+    for (size_t T = 1; T <= 2; T++) {
+      // 1 worker is not "one schedule": the caller may take its step to join() between any two operations of the worker, which
+      // gives O(n) schedules of O(n) steps; unbounded for n <= 257, the wide ranges run without preemptions (bound 0)
+      int bound = wide ? 0 : T == 1 ? -1 : (thorough ? 2 : 1);
+      std::vector<std::vector<uint64_t>> sets = {{}, {n - 1}};
+      if (!wide) { sets.push_back({0x80}); if (n - 1 != 0xFE) sets.push_back({0xFE}); }
+      else sets.push_back({0x1000});
+      for (auto& h : sets) {
+        for (int prog = 0; prog < 2; prog++) {
+          if (prog && (wide || T == 1) && !(wide && T == 1 && h.empty())) continue;
+          if (prog && !h.empty() && h[0] != n - 1) continue;
+          for (Ty ty : {U64, U16, I32}) {
+            if (ty == U16 && n > 65535) continue;
+            if (ty != U64 && (prog || (h.size() && h[0] != n - 1))) continue;
+            if (ty != U64 && wide && T == 2 && !thorough) continue;
+            uint64_t st = ty == U64 ? START : ty == U16 ? 65535 - n : (uint64_t)0 - n / 2;
+            out.push_back(one(mkbig(F_RANGE, ty, st, n, 0, T, h, prog ? P_COUNTING : P_NULL), bound));
+          }
+        }
+      }
+    }
+  }
+  return out;
+}
+
 // ---- running one family --------------------------------------------------------------------------------
 
 struct ChildResult {
@@ -819,7 +1046,9 @@ uint64_t weight(const Config& c) {
     bool valid = cl.fn == F_RANGE || (cl.len >= 0 && cl.block >= 1 && (uint64_t)cl.len % cl.block == 0);
     uint64_t K = !valid ? 0 : (cl.fn == F_RANGE ? cl.n() : cl.n() / cl.block);
     double wc = 1;
-    for (uint64_t i = 0; i < T; i++) wc *= (double)(K + 2 + (cl.progress ? 2 : 0));
+    if (cl.big && cl.fn == F_RANGE) K = K > 64 ? 64 : K;  // preemption-bounded
+    for (uint64_t i = 0; i < T && i < 4; i++) wc *= (double)(K + 2 + (cl.progress ? 2 : 0));
+    if (cl.big) wc *= 1.0 + (double)cl.n() / 64.0;  // every execution makes n callbacks
     w *= wc;
   }
   w *= 1 + 5 * c.spurious;
@@ -964,6 +1193,12 @@ VF_SECTION(spurious_cas, 16, 16, 300) {
 VF_SECTION(env_histories, 16, 16, 300) {
   run_family(r, configs_env(r.thorough()), r.thorough() ? 3000000 : 400000);
   r.bound = "num_threads=0 with hardware_concurrency() in {1,2,3,0}; defaulted progress_fn argument (4 IntT, start 0 / 5 / -2, 1-2 workers; explored in a child process); histories: all ordered pairs and A-B-A triples of 8 call shapes inside one execution (triples preemption-bounded in quick), pairs with a spurious CAS failure and default thread count; calls inside a catch handler and from a destructor during unwinding";
+}
+
+VF_SECTION(big_blocks, 16, 16, 600) {
+  run_family(r, configs_big(r.thorough()), r.thorough() ? 3000000 : 400000);
+  r.bound = r.thorough() ? "uint64_t, parallel_range_blocks / _multi: block sizes {0xFF,0x100,0x101,0xFFF,0x1000,0x1001,0x1FFF,0x2000,0x2001,0x4001,0xFFFF,0x10000,0x10001,0x20001} x 2..3 blocks x 2..3 workers x single hits at the first / last value of every block and at offsets 2^k-1,2^k,2^k+1 (k=8,12,16) in the first and final block, two hits in different blocks, no hit (_multi: no hit, last value, all offsets 2^k-1,2^k,2^k+1 of every block at once): ALL interleavings for 2 workers (every block size) and for 3 workers x 2 blocks of up to 0x4001 values; 3 workers x 2 blocks of 0x10001 at preemption bound 2 (three true-sets); 3 workers x 3 blocks (0x101, 0x1001, 0x2001, 0x4001; three true-sets) and 4 workers x 2 blocks at preemption bound 3; counting progress_fn (2 workers x 2 blocks, all interleavings); one block with 2..3 workers; 8/16/32/64-bit signed and unsigned IntT with blocks of 0x40..0x2001 values at the type minimum / maximum / across zero (all interleavings); parallel_range on 255/256/257 values (2 workers: preemption bound 2) and 65535/65536/65537 values (1 worker: all interleavings; 2 workers: preemption bound 0)"
+                         : "uint64_t, parallel_range_blocks / _multi: block sizes {0xFF,0x100,0x101,0xFFF,0x1000,0x1001,0x2000,0x2001,0x10001} x 2..3 blocks x 2..3 workers x single hits at the first / last value of every block and at offsets 2^k-1,2^k,2^k+1 (k=8,12,16) in the first and final block, two hits in different blocks, no hit (_multi: no hit, last value, all offsets 2^k-1,2^k,2^k+1 of every block at once): ALL interleavings for 2 workers (any block size; 0x10001: 2 blocks) and for 3 workers x 2 blocks of 0x101 / 0x1001 values (hits at the block ends and the highest 2^k-1 offset); preemption bound 2 for 3 workers x 2 blocks of 0x2001, 3 workers x 3 blocks (0x101, 0x1001, 0x2001; three true-sets) and 4 workers x 2 blocks; counting progress_fn (2 workers x 2 blocks, all interleavings); one block with 2..3 workers; 8/16/32/64-bit signed and unsigned IntT with blocks of 0x40..0x2001 values at the type minimum / maximum / across zero (2 workers, all interleavings); parallel_range on 255/256/257 values (1 worker: all interleavings; 2 workers: preemption bound 1) and 65535/65536/65537 values (1 worker: all interleavings; 2 workers: preemption bound 0)";
 }
 
 VF_MAIN()
